@@ -145,10 +145,19 @@ package rtsp
 //@ extern func media.GetOrCreate(path string) (st *media.Stream)
 //@   modifies
 
+// "authentication is disabled for this session": RTSP authentication is off AND the session is not a WebSocket one that
+// the HTTP front authenticated - for those (ws-rtsp) the user comes from the token and HTTP checked only the PULL right of
+// the WebSocket path, so every right the session exercises (publishing under an announced path!) is still checked here
+//@ import "github.com/cnotch/ipchub/config"
+//@ spec func httpAuthOn() bool = uninterpreted
+//@ extern func config.Auth() (b bool)
+//@   modifies
+//@   ensures b == httpAuthOn()
+//@ spec func authOff(s *Session) bool = s.authMode == auth.NoneAuth && !(s.wsconn != nil && (s.user != nil || httpAuthOn()))
 //@ func (s *Session) checkPermission(right auth.AccessRight) (ok bool)
 //@   requires s != nil
 //@   modifies
-//@   ensures ok == (s.authMode == auth.NoneAuth || (s.user != nil && permits(s.user, s.path, right)))
+//@   ensures ok == (authOff(s) || (s.user != nil && permits(s.user, s.path, right)))
 
 // authentication: the user whose password / digest response is checked, and who is returned, is the entry the user table
 // holds under the request's user name NOW (looked up during this call), never one remembered from an earlier request
@@ -188,7 +197,7 @@ package rtsp
 //@   modifies s.closed, misc(s), s.status
 //@ func (s *Session) asTCPPusher() ()
 //@   trusted
-//@   requires s != nil && (s.authMode == auth.NoneAuth || (s.user != nil && permits(s.user, s.path, auth.PushRight)))
+//@   requires s != nil && (authOff(s) || (s.user != nil && permits(s.user, s.path, auth.PushRight)))
 //@   modifies s.stream, s.logger, misc(s)
 //@ import "net"
 //@ import "github.com/cnotch/ipchub/network"
@@ -216,7 +225,7 @@ package rtsp
 //@   requires c != nil
 //@   modifies c.udpConn, c.destAddr[:], ghostAll("misc")
 //@ func (s *Session) asTCPConsumer(stream *media.Stream, resp *Response) (err error)
-//@   requires sessOK(s) && stream != nil && resp != nil && (s.authMode == auth.NoneAuth || (s.user != nil && permits(s.user, s.path, auth.PullRight)))
+//@   requires sessOK(s) && stream != nil && resp != nil && (authOff(s) || (s.user != nil && permits(s.user, s.path, auth.PullRight)))
 //@   modifies s.consumer, s.logger, s.timeout, misc(s), ghostAll("misc"), held(&s.lockW), out(s.conn), ghostInt(s.conn, "flushed"), ghostInt(s.conn, "flushes"), out(s.wsconn), ghostInt(s.wsconn, "wsmessages")
 //@   ensures !held(&s.lockW) && (err == nil ==> sent(s) == old(sent(s)) + 1) && sent(s) <= old(sent(s)) + 1 && sent(s) >= old(sent(s))
 // a refusal (the role function changed the status code) attaches nothing and is not an error of the session: the only
@@ -225,7 +234,7 @@ package rtsp
 //@   ensures resp.StatusCode != old(resp.StatusCode) ==> err == nil || ioErr(err)
 //@   ensures old(resp.StatusCode) == StatusOK && resp.StatusCode == StatusOK && err == nil ==> s.consumer != nil
 //@ func (s *Session) asUDPConsumer(stream *media.Stream, resp *Response) (err error)
-//@   requires sessOK(s) && stream != nil && resp != nil && (s.authMode == auth.NoneAuth || (s.user != nil && permits(s.user, s.path, auth.PullRight))) && s.conn != nil
+//@   requires sessOK(s) && stream != nil && resp != nil && (authOff(s) || (s.user != nil && permits(s.user, s.path, auth.PullRight))) && s.conn != nil
 //@   modifies resp.StatusCode, s.consumer, s.logger, s.timeout, misc(s), ghostAll("misc"), held(&s.lockW), out(s.conn), ghostInt(s.conn, "flushed"), ghostInt(s.conn, "flushes"), out(s.wsconn), ghostInt(s.wsconn, "wsmessages")
 //@   ensures !held(&s.lockW) && (err == nil ==> sent(s) == old(sent(s)) + 1) && sent(s) <= old(sent(s)) + 1 && sent(s) >= old(sent(s))
 // a refusal (the role function changed the status code) attaches nothing and is not an error of the session: the only
@@ -234,7 +243,7 @@ package rtsp
 //@   ensures resp.StatusCode != old(resp.StatusCode) ==> err == nil || ioErr(err)
 //@   ensures old(resp.StatusCode) == StatusOK && resp.StatusCode == StatusOK && err == nil ==> s.consumer != nil
 //@ func (s *Session) asMulticastConsumer(stream *media.Stream, resp *Response) (err error)
-//@   requires sessOK(s) && stream != nil && resp != nil && (s.authMode == auth.NoneAuth || (s.user != nil && permits(s.user, s.path, auth.PullRight)))
+//@   requires sessOK(s) && stream != nil && resp != nil && (authOff(s) || (s.user != nil && permits(s.user, s.path, auth.PullRight)))
 //@   modifies resp.StatusCode, s.consumer, s.logger, s.timeout, misc(s), ghostAll("misc"), held(&s.lockW), out(s.conn), ghostInt(s.conn, "flushed"), ghostInt(s.conn, "flushes"), out(s.wsconn), ghostInt(s.wsconn, "wsmessages")
 //@   ensures !held(&s.lockW) && (err == nil ==> sent(s) == old(sent(s)) + 1) && sent(s) <= old(sent(s)) + 1 && sent(s) >= old(sent(s))
 // a refusal (the role function changed the status code) attaches nothing and is not an error of the session: the only
@@ -248,9 +257,9 @@ package rtsp
 //@   requires sessOK(s) && resp != nil && req != nil
 //@   modifies resp.StatusCode, s.status, s.stream, s.logger, misc(s)
 //@   ensures old(s.status) != statusRecording && (s.mode != RecordSession || s.transport.Type != RTPTCPUnicast) ==> resp.StatusCode == StatusMethodNotValidInThisState && s.status == old(s.status) && s.stream == old(s.stream)
-//@   ensures s.status == statusRecording && old(s.status) != statusRecording ==> s.mode == RecordSession && s.transport.Type == RTPTCPUnicast && (s.authMode == auth.NoneAuth || (s.user != nil && permits(s.user, s.path, auth.PushRight)))
+//@   ensures s.status == statusRecording && old(s.status) != statusRecording ==> s.mode == RecordSession && s.transport.Type == RTPTCPUnicast && (authOff(s) || (s.user != nil && permits(s.user, s.path, auth.PushRight)))
 //@   ensures s.status == old(s.status) || s.status == statusRecording
-//@   ensures old(s.status) != statusRecording && s.mode == RecordSession && s.transport.Type == RTPTCPUnicast && !(s.authMode == auth.NoneAuth || (s.user != nil && permits(s.user, s.path, auth.PushRight))) ==> resp.StatusCode == StatusForbidden && s.status == old(s.status) && s.stream == old(s.stream)
+//@   ensures old(s.status) != statusRecording && s.mode == RecordSession && s.transport.Type == RTPTCPUnicast && !(authOff(s) || (s.user != nil && permits(s.user, s.path, auth.PushRight))) ==> resp.StatusCode == StatusForbidden && s.status == old(s.status) && s.stream == old(s.stream)
 
 // PLAY: always answered exactly once; media is attached only for a play session with a transport and pull rights
 //@ func (s *Session) onPlay(resp *Response, req *Request) (err error)
@@ -313,8 +322,8 @@ package rtsp
 //@   modifies
 //@ extern func (m media.Multicastable) TTL() (r int)
 //@   modifies
-//@ spec func pullOK(s *Session) bool = s.authMode == auth.NoneAuth || (s.user != nil && permits(s.user, s.path, auth.PullRight))
-//@ spec func pushOK(s *Session) bool = s.authMode == auth.NoneAuth || (s.user != nil && permits(s.user, s.path, auth.PushRight))
+//@ spec func pullOK(s *Session) bool = authOff(s) || (s.user != nil && permits(s.user, s.path, auth.PullRight))
+//@ spec func pushOK(s *Session) bool = authOff(s) || (s.user != nil && permits(s.user, s.path, auth.PushRight))
 
 // DESCRIBE: the session becomes a play session only when the stream exists, its SDP parses and the user may pull the
 // requested path; any refusal (404 / 403) leaves the mode as it was; the state never changes here
@@ -550,7 +559,6 @@ package rtsp
 //@ import "time"
 //@ import "runtime/debug"
 //@ import "github.com/cnotch/ipchub/stats"
-//@ import "github.com/cnotch/ipchub/config"
 //@ global stats.RtspConns readonly
 //@ extern func (c stats.Conns) Add() (n int64)
 //@   modifies ghostInt(c, "active")
